@@ -36,6 +36,8 @@ FILES = {
                       "class Shadow(shared.X):\n    shared = 'a member named like the first name of the base expression'\n"
                       "class Same(Top):\n    class Top:\n        pass\n"
                       "class Outer:\n    class S:\n        pass\n    class Uses(sibling.S):\n        sibling = 1\n",
+    # a class body sees its own names, then the module's globals -- not the names of the class it is nested in
+    "c4pkg/nested.py": "class Hidden:\n    pass\nclass Outer:\n    class Hidden:\n        pass\n    class Inner:\n        own = 1\n        one: Hidden\n",
 }
 
 
@@ -81,7 +83,7 @@ def sweep():
         try:
             ld = GriffeLoader(search_paths=[tmp], allow_inspection=False)
             pkg = ld.load("c4pkg")
-            for modname in ["c4pkg.a", "c4pkg.a.b", "c4pkg.a.b.leaf", "c4pkg.json", "c4pkg.shapes", "c4pkg.bases"]:
+            for modname in ["c4pkg.a", "c4pkg.a.b", "c4pkg.a.b.leaf", "c4pkg.json", "c4pkg.shapes", "c4pkg.bases", "c4pkg.nested"]:
                 pymod = importlib.import_module(modname)
                 gmod = pkg[modname.split(".", 1)[1]]
                 scopes = [(pymod, gmod)]
